@@ -37,6 +37,7 @@ impl MatMap {
     #[verifier::external_body] pub fn contains_key(&self, i: &Deg) -> (r: bool) ensures r == self.m@.dom().contains(i.g@) { unimplemented!() }
 }
 impl TransMap {
+    #[verifier::external_body] pub fn insert(&mut self, i: Deg, t: Trans) -> (o: Option<Trans>) ensures final(self).m@ == old(self).m@.insert(i.g@, (t.f@, t.b@)) { unimplemented!() }
     #[verifier::external_body] pub fn contains_key(&self, i: &Deg) -> (r: bool) ensures r == self.m@.dom().contains(i.g@) { unimplemented!() }
     #[verifier::external_body] pub fn get_mut(&mut self, i: &Deg) -> (r: Option<&mut Trans>)
         ensures r.is_some() == old(self).m@.dom().contains(i.g@),
@@ -59,6 +60,7 @@ impl SpMat {
         ensures r.m@ == mmul(mmul(pm(p.p@), self.m@), pmi(q.p@)), nr(r.m@) == nr(self.m@), nc(r.m@) == nc(self.m@) { unimplemented!() }
 }
 impl Trans {
+    #[verifier::external_body] pub fn id(n: usize) -> (r: Trans) ensures r.f@ == mid(n as int), r.b@ == mid(n as int) { unimplemented!() }
     /// proved in unit trans (dimension-free): append_perm = append(row-perm, col-perm), merge composes
     #[verifier::external_body] pub fn append_perm(&mut self, p: PermView) ensures final(self).f@ == mmul(pm(p.p@), old(self).f@), final(self).b@ == mmul(old(self).b@, pmi(p.p@)) { unimplemented!() }
     #[verifier::external_body] pub fn merge(&mut self, other: Trans) ensures final(self).f@ == mmul(other.f@, old(self).f@), final(self).b@ == mmul(old(self).b@, other.b@) { unimplemented!() }
@@ -171,6 +173,256 @@ pub proof fn lemma_chain_step(m0: Map<int, int>, d: int, i: int, p: int, q: int,
     }
 }
 
+// ================================================================ transfer maps
+/// (fs (Pm F)) ((B Pm^-1) bs) = fs bs   when F B = I_n
+pub proof fn lemma_fb(f: int, b: int, pp: int, fs: int, bs: int, n: int)
+    requires mmul(f, b) == mid(n), pdim(pp) == n, nr(f) == n, nc(b) == n, nc(fs) == n, nr(bs) == n
+    ensures mmul(mmul(fs, mmul(pm(pp), f)), mmul(mmul(b, pmi(pp)), bs)) == mmul(fs, bs)
+{
+    bx_perm(pp);
+    let (x, y) = (mmul(pm(pp), f), mmul(b, pmi(pp)));
+    // x y = Pm (F B) Pm^-1 = I
+    bx_assoc(pm(pp), f, y); bx_assoc(f, b, pmi(pp)); bx_id(pmi(pp)); bx_dims(pm(pp), f, 0, 0, 0, 0, 0); bx_dims(b, pmi(pp), 0, 0, 0, 0, 0);
+    assert(mmul(x, y) == mid(n));
+    bx_assoc(fs, x, mmul(y, bs)); bx_assoc(x, y, bs); bx_id(bs);
+}
+/// the setting of one step, in block form
+pub open spec fn step_setup(t: TriangularType, a1: int, p: int, q: int, r: int, s: int, ft: int, bs: int, a: int, b: int, c: int, d: int) -> bool {
+    let ap = mmul(mmul(pm(p), a1), pmi(q)); let (m, n) = (nr(a1), nc(a1));
+    &&& pdim(p) == m && pdim(q) == n && elim_maps(ap, s, r, ft, bs)
+    &&& ap == mstack(mconcat(a, b), mconcat(c, d)) && block_dims(a, b, c, d, r, m, n) && tri_ok(t, a)
+    &&& ft == mconcat(mneg(mmul(c, minv(a))), mid(m - r)) && bs == mstack(mneg(mmul(minv(a), b)), mid(n - r))
+}
+/// bs v = w for w = Q a0 (v its non-pivot rows) when a1 a0 = 0:  the pivot rows of w are determined by the others
+pub proof fn lemma_bs_v(t: TriangularType, a1: int, a0: int, p: int, q: int, r: int, s: int, ft: int, bs: int, a: int, b: int, c: int, d: int)
+    requires step_setup(t, a1, p, q, r, s, ft, bs, a, b, c, d), nc(a1) == nr(a0), mmul(a1, a0) == mzero(nr(a1), nc(a0)),
+    ensures mmul(bs, mrows(mmul(pm(q), a0), r, nr(a0))) == mmul(pm(q), a0)
+{
+    let ap = mmul(mmul(pm(p), a1), pmi(q)); let w = mmul(pm(q), a0); let n = nr(a0); let m = nr(a1); let k = nc(a0);
+    bx_perm(p); bx_perm(q); bx_dims(pm(p), a1, 0, 0, 0, 0, 0); bx_dims(mmul(pm(p), a1), pmi(q), 0, 0, 0, 0, 0); bx_dims(pm(q), a0, r, n, 0, 0, 0); bx_dims(w, 0, 0, r, 0, 0, 0); bx_dims(w, 0, r, n, 0, 0, 0);
+    bx_assoc(mmul(pm(p), a1), pmi(q), w); bx_assoc(pmi(q), pm(q), a0); bx_id(a0); bx_assoc(pm(p), a1, a0); bx_zero_mul(pm(p), m, k);
+    assert(mmul(ap, w) == mzero(m, k));
+    let (u, v) = (mrows(w, 0, r), mrows(w, r, n));
+    bx_split(w, r);
+    // A' [u ; v] = [a u + b v ; c u + d v] = 0, so a u + b v = 0
+    bx_stack_mul(mconcat(a, b), mconcat(c, d), w); bx_concat_stack(a, b, u, v);
+    let top = madd(mmul(a, u), mmul(b, v));
+    bx_dims(a, u, 0, 0, 0, 0, 0); bx_dims(b, v, 0, 0, 0, 0, 0); bx_add_dims(mmul(a, u), mmul(b, v)); bx_dims(mconcat(c, d), w, 0, 0, 0, 0, 0);
+    bx_parts(top, mmul(mconcat(c, d), w)); bx_sub_zero(m, k, 0, r);
+    assert(top == mzero(r, k));
+    bx_add_inv(mmul(a, u), mmul(b, v));
+    // u = a^-1 a u = -(a^-1 b v) = (-(a^-1 b)) v
+    bx_tri_inv(t, a); bx_assoc(minv(a), a, u); bx_id(u); bx_neg_mul(minv(a), mmul(b, v)); bx_assoc(minv(a), b, v); bx_neg_mul(mmul(minv(a), b), v);
+    let nx = mneg(mmul(minv(a), b));
+    assert(u == mmul(nx, v));
+    // bs v = [nx v ; I v] = [u ; v] = w
+    bx_stack_mul(nx, mid(n - r), v); bx_id(v);
+}
+/// z2 ft = z for z = a2 P^-1 (z2 its non-pivot columns) when a2 a1 = 0
+pub proof fn lemma_z2_ft(t: TriangularType, a1: int, a2: int, p: int, q: int, r: int, s: int, ft: int, bs: int, a: int, b: int, c: int, d: int)
+    requires step_setup(t, a1, p, q, r, s, ft, bs, a, b, c, d), nc(a2) == nr(a1), mmul(a2, a1) == mzero(nr(a2), nc(a1)),
+    ensures mmul(mcols(mmul(a2, pmi(p)), r, nc(a2)), ft) == mmul(a2, pmi(p))
+{
+    let ap = mmul(mmul(pm(p), a1), pmi(q)); let z = mmul(a2, pmi(p)); let n = nc(a1); let m = nr(a1); let k = nr(a2);
+    bx_perm(p); bx_perm(q); bx_dims(pm(p), a1, 0, 0, 0, 0, 0); bx_dims(mmul(pm(p), a1), pmi(q), 0, 0, 0, 0, 0); bx_dims(a2, pmi(p), r, m, 0, 0, 0); bx_dims(z, 0, 0, r, 0, 0, 0); bx_dims(z, 0, r, m, 0, 0, 0);
+    bx_assoc(z, mmul(pm(p), a1), pmi(q)); bx_assoc(z, pm(p), a1); bx_assoc(a2, pmi(p), pm(p)); bx_id(a2); bx_zero_mul(pmi(q), k, n);
+    assert(mmul(z, ap) == mzero(k, n));
+    let (z1, z2) = (mcols(z, 0, r), mcols(z, r, m));
+    bx_split(z, r);
+    // [z1 | z2] A' = [z1 a + z2 c | z1 b + z2 d] = 0, so z1 a + z2 c = 0
+    bx_mul_concat_rows(z1, z2, a, b, c, d);
+    let left = madd(mmul(z1, a), mmul(z2, c));
+    bx_dims(z1, a, 0, 0, 0, 0, 0); bx_dims(z2, c, 0, 0, 0, 0, 0); bx_add_dims(mmul(z1, a), mmul(z2, c));
+    bx_parts(left, madd(mmul(z1, b), mmul(z2, d))); bx_sub_zero(k, n, 0, r);
+    assert(left == mzero(k, r));
+    bx_add_inv(mmul(z1, a), mmul(z2, c));
+    // z1 = z1 a a^-1 = -(z2 c) a^-1 = z2 (-(c a^-1))
+    bx_tri_inv(t, a); bx_assoc(z1, a, minv(a)); bx_id(z1); bx_neg_mul(mmul(z2, c), minv(a)); bx_assoc(z2, c, minv(a)); bx_neg_mul(z2, mmul(c, minv(a)));
+    let ny = mneg(mmul(c, minv(a)));
+    assert(z1 == mmul(z2, ny));
+    // z2 [ny | I] = [z2 ny | z2] = [z1 | z2] = z
+    bx_mul_concat(z2, ny, mid(m - r)); bx_id(z2);
+}
+
+/// the six chain-map identities of one step (F = forward, B = backward; subscript 0 / 1 / 2 / 3 for degrees i-d, i, i+d, i+2d)
+pub proof fn lemma_pairs(t: TriangularType, a1: int, p: int, q: int, r: int, s: int, ft: int, bs: int, a: int, b: int, c: int, d: int,
+                         a0: int, a2: int, dd0: int, dd1: int, dd2: int, f0: int, b0: int, f1: int, b1: int, f2: int, b2: int, f3: int, b3: int)
+    requires step_setup(t, a1, p, q, r, s, ft, bs, a, b, c, d),
+    ensures ({
+        let (m, n) = (nr(a1), nc(a1));
+        let fs = mconcat(mzero(n - r, r), mid(n - r)); let bt = mstack(mzero(r, m - r), mid(m - r));
+        let (f1n, b1n) = (mmul(fs, mmul(pm(q), f1)), mmul(mmul(b1, pmi(q)), bs));
+        let (f2n, b2n) = (mmul(ft, mmul(pm(p), f2)), mmul(mmul(b2, pmi(p)), bt));
+        let a0n = mrows(mmul(pm(q), a0), r, nr(a0)); let a2n = mcols(mmul(a2, pmi(p)), r, nc(a2));
+        // pair (i-d, i), only F_i / B_i change
+        &&& (nc(a1) == nr(a0) && mmul(a1, a0) == mzero(nr(a1), nc(a0)) && nr(f1) == n && mmul(f1, dd0) == mmul(a0, f0)) ==> mmul(f1n, dd0) == mmul(a0n, f0)
+        &&& (nc(a1) == nr(a0) && mmul(a1, a0) == mzero(nr(a1), nc(a0)) && nc(b1) == n && mmul(dd0, b0) == mmul(b1, a0)) ==> mmul(dd0, b0) == mmul(b1n, a0n)
+        // pair (i, i+d), both change
+        &&& (nr(f1) == n && nr(f2) == m && mmul(f2, dd1) == mmul(a1, f1)) ==> mmul(f2n, dd1) == mmul(s, f1n)
+        &&& (nc(b1) == n && nc(b2) == m && mmul(dd1, b1) == mmul(b2, a1)) ==> mmul(dd1, b1n) == mmul(b2n, s)
+        // pair (i+d, i+2d), only F_{i+d} / B_{i+d} change
+        &&& (nc(a2) == nr(a1) && mmul(a2, a1) == mzero(nr(a2), nc(a1)) && nr(f2) == m && mmul(f3, dd2) == mmul(a2, f2)) ==> mmul(f3, dd2) == mmul(a2n, f2n)
+        &&& (nc(a2) == nr(a1) && mmul(a2, a1) == mzero(nr(a2), nc(a1)) && nc(b2) == m && mmul(dd2, b2) == mmul(b3, a2)) ==> mmul(dd2, b2n) == mmul(b3, a2n)
+    }),
+{
+    let (m, n) = (nr(a1), nc(a1)); let ap = mmul(mmul(pm(p), a1), pmi(q));
+    let fs = mconcat(mzero(n - r, r), mid(n - r)); let bt = mstack(mzero(r, m - r), mid(m - r));
+    let (f1n, b1n) = (mmul(fs, mmul(pm(q), f1)), mmul(mmul(b1, pmi(q)), bs));
+    let (f2n, b2n) = (mmul(ft, mmul(pm(p), f2)), mmul(mmul(b2, pmi(p)), bt));
+    let a0n = mrows(mmul(pm(q), a0), r, nr(a0)); let a2n = mcols(mmul(a2, pmi(p)), r, nc(a2));
+    bx_perm(p); bx_perm(q); bx_dims(pm(p), a1, 0, 0, 0, 0, 0); bx_dims(mmul(pm(p), a1), pmi(q), 0, 0, 0, 0, 0);
+    bx_dims(0, 0, 0, 0, n - r, n - r, r); bx_dims(0, 0, 0, 0, m - r, r, m - r);
+    // (i-d, i) forward:  fs Q F1 D0 = fs Q a0 F0 = rows(Q a0) F0
+    if nc(a1) == nr(a0) && mmul(a1, a0) == mzero(nr(a1), nc(a0)) && nr(f1) == n && mmul(f1, dd0) == mmul(a0, f0) {
+        let w = mmul(pm(q), a0);
+        bx_assoc(fs, mmul(pm(q), f1), dd0); bx_assoc(pm(q), f1, dd0); bx_assoc(pm(q), a0, f0); bx_assoc(fs, w, f0);
+        bx_dims(pm(q), a0, 0, 0, 0, 0, 0); bx_proj(w, n - r);
+        assert(mmul(f1n, dd0) == mmul(a0n, f0));
+    }
+    // (i-d, i) backward:  B1 Q^-1 bs v = B1 Q^-1 w = B1 a0
+    if nc(a1) == nr(a0) && mmul(a1, a0) == mzero(nr(a1), nc(a0)) && nc(b1) == n && mmul(dd0, b0) == mmul(b1, a0) {
+        lemma_bs_v(t, a1, a0, p, q, r, s, ft, bs, a, b, c, d);
+        let w = mmul(pm(q), a0);
+        bx_assoc(mmul(b1, pmi(q)), bs, a0n); bx_assoc(b1, pmi(q), w); bx_assoc(pmi(q), pm(q), a0); bx_id(a0);
+        assert(mmul(b1n, a0n) == mmul(b1, a0));
+    }
+    // (i, i+d) forward:  ft P F2 D1 = ft P a1 F1;   S fs Q F1 = [0|S] Q F1 = ft A' Q F1 = ft P a1 F1
+    if nr(f1) == n && nr(f2) == m && mmul(f2, dd1) == mmul(a1, f1) {
+        bx_assoc(ft, mmul(pm(p), f2), dd1); bx_assoc(pm(p), f2, dd1); bx_assoc(pm(p), a1, f1);
+        bx_assoc(s, fs, mmul(pm(q), f1)); bx_mul_concat(s, mzero(n - r, r), mid(n - r)); bx_zero_mul(s, n - r, r); bx_id(s);
+        bx_assoc(ft, ap, mmul(pm(q), f1)); bx_assoc(mmul(pm(p), a1), pmi(q), mmul(pm(q), f1)); bx_assoc(pmi(q), pm(q), f1); bx_id(f1);
+        assert(mmul(f2n, dd1) == mmul(s, f1n));
+    }
+    // (i, i+d) backward:  D1 B1 Q^-1 bs = B2 a1 Q^-1 bs = B2 P^-1 A' bs = B2 P^-1 [0;S];   B2 P^-1 bt S = B2 P^-1 [0;S]
+    if nc(b1) == n && nc(b2) == m && mmul(dd1, b1) == mmul(b2, a1) {
+        bx_assoc(dd1, mmul(b1, pmi(q)), bs); bx_assoc(dd1, b1, pmi(q)); bx_assoc(b2, a1, pmi(q));
+        bx_assoc(mmul(b2, pmi(p)), bt, s); bx_stack_mul(mzero(r, m - r), mid(m - r), s); bx_zero_mul(s, r, m - r); bx_id(s);
+        bx_assoc(mmul(b2, pmi(p)), ap, bs); bx_assoc(b2, pmi(p), mmul(mmul(pm(p), a1), pmi(q))); bx_assoc(pmi(p), mmul(pm(p), a1), pmi(q)); bx_assoc(pmi(p), pm(p), a1); bx_id(a1);
+        bx_assoc(mmul(b2, a1), pmi(q), bs); bx_assoc(b2, mmul(a1, pmi(q)), bs); bx_assoc(b2, a1, pmi(q));
+        assert(mmul(dd1, b1n) == mmul(b2n, s));
+    }
+    // (i+d, i+2d) forward:  a2' ft P F2 = z P F2 = a2 F2
+    if nc(a2) == nr(a1) && mmul(a2, a1) == mzero(nr(a2), nc(a1)) && nr(f2) == m && mmul(f3, dd2) == mmul(a2, f2) {
+        lemma_z2_ft(t, a1, a2, p, q, r, s, ft, bs, a, b, c, d);
+        let z = mmul(a2, pmi(p));
+        bx_assoc(a2n, ft, mmul(pm(p), f2)); bx_assoc(a2, pmi(p), mmul(pm(p), f2)); bx_assoc(pmi(p), pm(p), f2); bx_id(f2);
+        assert(mmul(a2n, f2n) == mmul(a2, f2));
+    }
+    // (i+d, i+2d) backward:  D2 B2 P^-1 bt = B3 a2 P^-1 bt = B3 cols(a2 P^-1)
+    if nc(a2) == nr(a1) && mmul(a2, a1) == mzero(nr(a2), nc(a1)) && nc(b2) == m && mmul(dd2, b2) == mmul(b3, a2) {
+        let z = mmul(a2, pmi(p));
+        bx_assoc(dd2, mmul(b2, pmi(p)), bt); bx_assoc(dd2, b2, pmi(p)); bx_assoc(b3, a2, pmi(p)); bx_assoc(b3, z, bt);
+        bx_dims(a2, pmi(p), 0, 0, 0, 0, 0); bx_proj(z, m - r);
+        assert(mmul(dd2, b2n) == mmul(b3, a2n));
+    }
+}
+
+/// sizes of one transfer map against the current differentials, and F B = I
+pub open spec fn t_sizes(ts: Map<int, (int, int)>, ms: Map<int, int>, d: int, j: int) -> bool {
+    let (f, b) = ts[j];
+    nc(b) == nr(f) && mmul(f, b) == mid(nr(f))
+    && (ms.dom().contains(j) ==> nc(ms[j]) == nr(f)) && (ms.dom().contains(j - d) ==> nr(ms[j - d]) == nr(f))
+}
+/// the transfer maps (F_j, B_j) between an original complex dd and the current one ms: F B = I, F and B are chain maps
+pub open spec fn tmap_ok(dd: Map<int, int>, ms: Map<int, int>, ts: Map<int, (int, int)>, d: int) -> bool {
+    &&& forall|j: int| ts.dom().contains(j) ==> #[trigger] t_sizes(ts, ms, d, j)
+    &&& forall|j: int| ts.dom().contains(j) && ts.dom().contains(j + d) && ms.dom().contains(j) && dd.dom().contains(j) ==>
+            mmul((#[trigger] ts[j + d]).0, dd[j]) == mmul(ms[j], ts[j].0) && mmul(dd[j], ts[j].1) == mmul(ts[j + d].1, ms[j])
+}
+pub open spec fn new_mats(m0: Map<int, int>, d: int, i: int, p: int, q: int, r: int, s: int) -> Map<int, int> {
+    let (i0, i2) = (i - d, i + d);
+    let m1 = if m0.dom().contains(i0) { m0.insert(i0, mrows(mmul(pm(q), m0[i0]), r, nr(m0[i0]))) } else { m0 };
+    let m2 = m1.insert(i, s);
+    if m0.dom().contains(i2) { m2.insert(i2, mcols(mmul(m0[i2], pmi(p)), r, nc(m0[i2]))) } else { m2 }
+}
+pub open spec fn new_trans(t0: Map<int, (int, int)>, d: int, i: int, p: int, q: int, src: (int, int), tgt: (int, int)) -> Map<int, (int, int)> {
+    let i2 = i + d;
+    let t1 = if t0.dom().contains(i) { t0.insert(i, (mmul(src.0, mmul(pm(q), t0[i].0)), mmul(mmul(t0[i].1, pmi(q)), src.1))) } else { t0 };
+    if t0.dom().contains(i2) { t1.insert(i2, (mmul(tgt.0, mmul(pm(p), t0[i2].0)), mmul(mmul(t0[i2].1, pmi(p)), tgt.1))) } else { t1 }
+}
+/// after one step the composed maps are again transfer maps to the new complex
+pub proof fn lemma_tmap_step(tt: TriangularType, dd: Map<int, int>, m0: Map<int, int>, t0: Map<int, (int, int)>, d: int, i: int, p: int, q: int, r: int, s: int,
+                             ft: int, bs: int, a: int, b: int, c: int, d4: int, upd: bool)
+    requires chain_ok(m0, d), tmap_ok(dd, m0, t0, d), d != 0, m0.dom().contains(i), step_setup(tt, m0[i], p, q, r, s, ft, bs, a, b, c, d4),
+        !upd ==> (!t0.dom().contains(i) && !t0.dom().contains(i + d)),
+    ensures ({
+        let (m, n) = (nr(m0[i]), nc(m0[i]));
+        let src = (mconcat(mzero(n - r, r), mid(n - r)), bs); let tgt = (ft, mstack(mzero(r, m - r), mid(m - r)));
+        (mmul(src.0, src.1) == mid(n - r) && mmul(tgt.0, tgt.1) == mid(m - r)) ==>
+            tmap_ok(dd, new_mats(m0, d, i, p, q, r, s), if upd { new_trans(t0, d, i, p, q, src, tgt) } else { t0 }, d)
+    }),
+{
+    let a1 = m0[i]; let (m, n) = (nr(a1), nc(a1)); let (i0, i2) = (i - d, i + d);
+    let fs = mconcat(mzero(n - r, r), mid(n - r)); let bt = mstack(mzero(r, m - r), mid(m - r));
+    let src = (fs, bs); let tgt = (ft, bt);
+    let m3 = new_mats(m0, d, i, p, q, r, s); let t2 = if upd { new_trans(t0, d, i, p, q, src, tgt) } else { t0 };
+    if mmul(fs, bs) == mid(n - r) && mmul(ft, bt) == mid(m - r) {
+        bx_perm(p); bx_perm(q); bx_dims(pm(p), a1, 0, 0, 0, 0, 0); bx_dims(mmul(pm(p), a1), pmi(q), 0, 0, 0, 0, 0);
+        bx_dims(0, 0, 0, 0, n - r, n - r, r); bx_dims(0, 0, 0, 0, m - r, r, m - r); bx_dims(mzero(n - r, r), mid(n - r), 0, 0, 0, 0, 0); bx_dims(mzero(r, m - r), mid(m - r), 0, 0, 0, 0, 0);
+        let a0 = if m0.dom().contains(i0) { m0[i0] } else { 0 }; let a2 = if m0.dom().contains(i2) { m0[i2] } else { 0 };
+        if m0.dom().contains(i0) { assert(nc(m0[i0 + d]) == nr(m0[i0])); bx_dims(pm(q), a0, r, nr(a0), 0, 0, 0); bx_dims(mmul(pm(q), a0), 0, r, nr(a0), 0, 0, 0); }
+        if m0.dom().contains(i2) { assert(nc(m0[i + d]) == nr(m0[i])); bx_dims(a2, pmi(p), r, nc(a2), 0, 0, 0); bx_dims(mmul(a2, pmi(p)), 0, r, nc(a2), 0, 0, 0); }
+        // ---- sizes and F B = I
+        assert forall|j: int| t2.dom().contains(j) implies #[trigger] t_sizes(t2, m3, d, j) by {
+            assert(t0.dom().contains(j)); assert(t_sizes(t0, m0, d, j));
+            let (f, bb) = t0[j];
+            if upd && j == i {
+                lemma_fb(f, bb, q, fs, bs, n);
+                bx_dims(fs, mmul(pm(q), f), 0, 0, 0, 0, 0); bx_dims(mmul(bb, pmi(q)), bs, 0, 0, 0, 0, 0);
+            } else if upd && j == i2 {
+                assert(m0.dom().contains(i2 - d));
+                lemma_fb(f, bb, p, ft, bt, m);
+                bx_dims(ft, mmul(pm(p), f), 0, 0, 0, 0, 0); bx_dims(mmul(bb, pmi(p)), bt, 0, 0, 0, 0, 0);
+            } else { }
+        }
+        // ---- chain maps
+        assert forall|j: int| t2.dom().contains(j) && t2.dom().contains(j + d) && m3.dom().contains(j) && dd.dom().contains(j) implies
+            mmul((#[trigger] t2[j + d]).0, dd[j]) == mmul(m3[j], t2[j].0) && mmul(dd[j], t2[j].1) == mmul(t2[j + d].1, m3[j]) by {
+            assert(t0.dom().contains(j) && t0.dom().contains(j + d) && m0.dom().contains(j));
+            assert(mmul(t0[j + d].0, dd[j]) == mmul(m0[j], t0[j].0) && mmul(dd[j], t0[j].1) == mmul(t0[j + d].1, m0[j]));
+            assert(t_sizes(t0, m0, d, j)); assert(t_sizes(t0, m0, d, j + d));
+            if j == i0 || j == i || j == i2 {
+                let z = (0int, 0int);
+                let (tf0, tf1, tf2, tf3) = (if t0.dom().contains(i0) { t0[i0] } else { z }, if t0.dom().contains(i) { t0[i] } else { z }, if t0.dom().contains(i2) { t0[i2] } else { z }, if t0.dom().contains(i2 + d) { t0[i2 + d] } else { z });
+                let (g0, g1, g2) = (if dd.dom().contains(i0) { dd[i0] } else { 0 }, if dd.dom().contains(i) { dd[i] } else { 0 }, if dd.dom().contains(i2) { dd[i2] } else { 0 });
+                lemma_pairs(tt, a1, p, q, r, s, ft, bs, a, b, c, d4, a0, a2, g0, g1, g2, tf0.0, tf0.1, tf1.0, tf1.1, tf2.0, tf2.1, tf3.0, tf3.1);
+                if j == i0 { assert(mmul(m0[i0 + d], m0[i0]) == mzero(nr(m0[i0 + d]), nc(m0[i0]))); }
+                if j == i2 { assert(mmul(m0[i + d], m0[i]) == mzero(nr(m0[i + d]), nc(m0[i]))); assert(m0.dom().contains(i2 - d)); }
+                if j == i { assert(t0.dom().contains(i) && t0.dom().contains(i + d)); }
+            }
+        }
+    }
+}
+
+/// the Schur maps satisfy F B = I on both sides (stated by the Schur contract only when the maps are returned; re-derived here from the block form)
+pub proof fn lemma_no_trans(t: TriangularType, ap: int, s: int, r: int, ft: int, bs: int, a: int, b: int, c: int, d: int)
+    requires elim_maps(ap, s, r, ft, bs), ap == mstack(mconcat(a, b), mconcat(c, d)), block_dims(a, b, c, d, r, nr(ap), nc(ap)), tri_ok(t, a),
+        ft == mconcat(mneg(mmul(c, minv(a))), mid(nr(ap) - r)), bs == mstack(mneg(mmul(minv(a), b)), mid(nc(ap) - r)),
+    ensures mmul(mconcat(mzero(nc(ap) - r, r), mid(nc(ap) - r)), bs) == mid(nc(ap) - r), mmul(ft, mstack(mzero(r, nr(ap) - r), mid(nr(ap) - r))) == mid(nr(ap) - r)
+{
+    let (m, n) = (nr(ap), nc(ap)); let nx = mneg(mmul(minv(a), b)); let ny = mneg(mmul(c, minv(a)));
+    bx_tri_inv(t, a); bx_dims(minv(a), b, 0, 0, 0, 0, 0); bx_dims(c, minv(a), 0, 0, 0, 0, 0); bx_add_dims(mmul(minv(a), b), 0); bx_add_dims(mmul(c, minv(a)), 0);
+    bx_dims(0, 0, 0, 0, n - r, 0, 0); bx_dims(0, 0, 0, 0, m - r, 0, 0);
+    bx_concat_stack(mzero(n - r, r), mid(n - r), nx, mid(n - r)); bx_zero_mul(nx, n - r, r); bx_id(mid(n - r)); bx_add_zero(mid(n - r));
+    bx_concat_stack(ny, mid(m - r), mzero(r, m - r), mid(m - r)); bx_zero_mul(ny, r, m - r); bx_id(mid(m - r)); bx_add_zero(mid(m - r));
+}
+
+/// the start: identity transfer maps on a complex are transfer maps from that complex to itself
+pub proof fn lemma_tmap_init(ms: Map<int, int>, ts: Map<int, (int, int)>, d: int)
+    requires chain_ok(ms, d), forall|j: int| ts.dom().contains(j) ==> ms.dom().contains(j) && #[trigger] ts[j] == (mid(nc(ms[j])), mid(nc(ms[j]))) && 0 <= nc(ms[j]),
+    ensures tmap_ok(ms, ms, ts, d)
+{
+    assert forall|j: int| ts.dom().contains(j) implies #[trigger] t_sizes(ts, ms, d, j) by {
+        let tj = ts[j]; assert(ms.dom().contains(j));
+        let n = nc(ms[j]); bx_dims(0, 0, 0, 0, n, 0, 0); bx_id(mid(n));
+        if ms.dom().contains(j - d) { let j0 = j - d; assert(ms.dom().contains(j0) && ms.dom().contains(j0 + d)); assert(nc(ms[j0 + d]) == nr(ms[j0])); }
+    }
+    assert forall|j: int| ts.dom().contains(j) && ts.dom().contains(j + d) && ms.dom().contains(j) && ms.dom().contains(j) implies
+        mmul((#[trigger] ts[j + d]).0, ms[j]) == mmul(ms[j], ts[j].0) && mmul(ms[j], ts[j].1) == mmul(ts[j + d].1, ms[j]) by {
+        let (tj, tjd) = (ts[j], ts[j + d]); assert(ms.dom().contains(j + d)); assert(nc(ms[j + d]) == nr(ms[j])); bx_id(ms[j]);
+    }
+}
+
 impl ChainReducer {
     pub fn matrix(&self, i: Deg) -> (r: Option<&SpMat>) ensures r.is_some() == self.mats.m@.dom().contains(i.g@), r.is_some() ==> r.unwrap().m@ == self.mats.m@[i.g@],
     //@body impl/ChainReducer/matrix
@@ -226,7 +478,7 @@ impl ChainReducer {
     #[verifier::external_body] pub fn update_vecs(&mut self, i: Deg, a: &SpMat, p: &PermOwned, q: &PermOwned, r: usize, t: TriangularType)
         ensures final(self).mats == old(self).mats, final(self).trans == old(self).trans, final(self).d_deg == old(self).d_deg { unimplemented!() }
 
-    /// one reduction step at degree i: the differentials still compose to zero
+    /// one reduction step at degree i: the differentials still compose to zero, and transfer maps stay transfer maps
     pub fn reduce_at_spec(&mut self, i: Deg, piv_type: PivotType, piv_cond: PivotCondition) -> (res: bool)
         requires old(self).d_deg.g@ != 0, chain_ok(old(self).mats.m@, old(self).d_deg.g@),
 //@if B
@@ -234,20 +486,45 @@ impl ChainReducer {
 //@endif
         ensures old(self).mats.m@.dom().contains(i.g@), chain_ok(final(self).mats.m@, old(self).d_deg.g@), final(self).d_deg == old(self).d_deg,
             !res ==> (final(self).mats == old(self).mats && final(self).trans == old(self).trans),
+            // for every original complex dd the maps were transfer maps to, they still are
+            forall|dd: Map<int, int>| #[trigger] tmap_ok(dd, old(self).mats.m@, old(self).trans.m@, old(self).d_deg.g@) ==> tmap_ok(dd, final(self).mats.m@, final(self).trans.m@, old(self).d_deg.g@),
     //@body impl/ChainReducer/reduce_at_spec for_iter=1 ring=1 machine=r q=i,d_deg qname=d
     //@+ sig
     //@| fn reduce_at_spec(&mut self, i: I, piv_type: PivotType, piv_cond: PivotCondition) -> bool
     //@+ pre-raw
-    //@| let ghost (m0, dd) = (self.mats.m@, self.d_deg.g@);
+    //@| let ghost (m0, t0, dd) = (self.mats.m@, self.trans.m@, self.d_deg.g@);
+    //@| let ghost mut gs = 0int; let ghost mut ap = 0int; let ghost mut gft = 0int; let ghost mut gbs = 0int; let ghost mut blk = (0int, 0int, 0int, 0int);
     //@+ after-let r
     //@| bx_perm(p.p@); bx_perm(q.p@);
-    //@+ after-let-raw s
-    //@| let ghost (gs, ap) = (s.m@, a.m@);
     //@+ after-let s
-    //@| let (ft, bs) = choose|ft: int, bs: int| #[trigger] elim_maps(ap, gs, r as int, ft, bs);
+    //@| gs = s.m@; ap = a.m@;
+    //@| let (m, n) = (nr(ap), nc(ap));
+    //@| let (ft, bs) = choose|ft: int, bs: int| #[trigger] elim_maps(ap, gs, r as int, ft, bs)
+    //@|     && (with_trans ==> (ft == t_tgt.unwrap().f@ && bs == t_src.unwrap().b@ && t_src.unwrap().f@ == mconcat(mzero(n - r, r as int), mid(n - r)) && t_tgt.unwrap().b@ == mstack(mzero(r as int, m - r), mid(m - r))))
+    //@|     && exists|a4: int, b4: int, c4: int, d4: int| #![trigger mstack(mconcat(a4, b4), mconcat(c4, d4))]
+    //@|         ap == mstack(mconcat(a4, b4), mconcat(c4, d4)) && block_dims(a4, b4, c4, d4, r as int, m, n) && tri_ok(t, a4)
+    //@|         && ft == mconcat(mneg(mmul(c4, minv(a4))), mid(m - r)) && bs == mstack(mneg(mmul(minv(a4), b4)), mid(n - r));
+    //@| let (a4, b4, c4, d4) = choose|a4: int, b4: int, c4: int, d4: int| #![trigger mstack(mconcat(a4, b4), mconcat(c4, d4))]
+    //@|         ap == mstack(mconcat(a4, b4), mconcat(c4, d4)) && block_dims(a4, b4, c4, d4, r as int, m, n) && tri_ok(t, a4)
+    //@|         && ft == mconcat(mneg(mmul(c4, minv(a4))), mid(m - r)) && bs == mstack(mneg(mmul(minv(a4), b4)), mid(n - r));
+    //@| gft = ft; gbs = bs; blk = (a4, b4, c4, d4);
     //@| lemma_chain_step(m0, dd, i.g@, p.p@, q.p@, r as int, gs, ft, bs);
     //@| if m0.dom().contains(i.g@ - dd) { assert(nc(m0[i.g@ - dd + dd]) == nr(m0[i.g@ - dd])); }
     //@| if m0.dom().contains(i.g@ + dd) { assert(nc(m0[i.g@ + dd]) == nr(m0[i.g@])); }
+    //@| bx_dims(pm(p.p@), m0[i.g@], 0, 0, 0, 0, 0); bx_dims(mmul(pm(p.p@), m0[i.g@]), pmi(q.p@), 0, 0, 0, 0, 0);
+    //@| // what the Schur contract says about F B (only when the maps are returned); without maps nothing in `trans` is touched
+    //@| assert forall|o: Map<int, int>| #[trigger] tmap_ok(o, m0, t0, dd) implies
+    //@|     tmap_ok(o, new_mats(m0, dd, i.g@, p.p@, q.p@, r as int, gs), if with_trans { new_trans(t0, dd, i.g@, p.p@, q.p@, (mconcat(mzero(n - r, r as int), mid(n - r)), bs), (ft, mstack(mzero(r as int, m - r), mid(m - r)))) } else { t0 }, dd) by {
+    //@|     lemma_tmap_step(t, o, m0, t0, dd, i.g@, p.p@, q.p@, r as int, gs, ft, bs, a4, b4, c4, d4, with_trans);
+    //@|     if !with_trans { lemma_no_trans(t, ap, gs, r as int, ft, bs, a4, b4, c4, d4); }
+    //@| }
+    /// install a differential (and the identity transfer map on its source)
+    pub fn set_matrix(&mut self, i: Deg, d: SpMat, with_trans: bool)
+        ensures final(self).mats.m@ == old(self).mats.m@.insert(i.g@, d.m@), final(self).d_deg == old(self).d_deg,
+            final(self).trans.m@ == (if with_trans { old(self).trans.m@.insert(i.g@, (mid(nc(d.m@)), mid(nc(d.m@)))) } else { old(self).trans.m@ }),
+    //@body impl/ChainReducer/set_matrix
+    //@+ sig
+    //@| fn set_matrix(&mut self, i: I, d: SpMat<R>, with_trans: bool)
 }
 
 } // verus!
